@@ -4,19 +4,23 @@ CONSTANTS Vals, EMIT
 FG(k) == CASE k = 1 -> <<2, 4, 6>> [] k = 2 -> <<2, 3, 7>> [] k = 3 -> <<1, 2>>
 \* native direction axes <<start, step, count, order>> in native units (degrees, or steps of pi/12); order 1 ascending, -1 descending
 DG(k) == CASE k = 1 -> <<0, 90, 4, 1>> [] k = 2 -> <<10, 120, 3, 1>> [] k = 3 -> <<270, 90, 4, -1>> [] k = 4 -> <<355, 120, 3, 1>>
+           [] k = 5 -> <<5, 90, 4, 1>> [] k = 6 -> <<2, 1, 4, 1>>      \* small labels: 5, 95, ..; a narrow sector 2, 3, 4, 5 degrees
 \* radian axes in units of pi/2880 (1/16 degree): 90, 120 degree steps, descending, offset, and the 11.25 / 5.625 degree grids of 32 / 64 bins
 DGR(k) == CASE k = 1 -> <<0, 1440, 4, 1>> [] k = 2 -> <<16, 1920, 3, 1>> [] k = 3 -> <<4320, 1440, 4, -1>> [] k = 4 -> <<5680, 1920, 3, 1>>
             [] k = 5 -> <<0, 180, 5, 1>> [] k = 6 -> <<90, 90, 4, 1>>
 DirSeq(g) == [j \in 1..g[3] |-> IF g[4] = 1 THEN g[1] + (j - 1) * g[2] ELSE g[1] - (j - 1) * g[2]]
 DF2(F, i) == IF Len(F) = 1 THEN 40 ELSE IF i = 1 THEN 2 * (F[2] - F[1]) ELSE IF i = Len(F) THEN 2 * (F[Len(F)] - F[Len(F)-1]) ELSE F[i+1] - F[i-1]
 
-VARIABLES conv, F, dg, E
-vars == <<conv, F, dg, E>>
+VARIABLES conv, F, dg, E,
+          keep      \* the direction bins a selection left in the native dataset before it is converted (all of them, one, or two)
+vars == <<conv, F, dg, E, keep>>
 Init == /\ conv \in CONVS /\ \E k \in {1, 2, 3} : F = FG(k)
-        /\ IF conv \in {"ww3", "era5"} THEN \E k \in {1, 2, 3, 4} : dg = DG(k) ELSE \E k \in {1, 2, 3, 4, 5, 6} : dg = DGR(k)
+        /\ IF conv \in {"ww3", "era5"} THEN \E k \in {1, 2, 3, 4, 5, 6} : dg = DG(k) ELSE \E k \in {1, 2, 3, 4, 5, 6} : dg = DGR(k)
         \* bin-wise property: spectra with at most two non-zero bins cover every bin and pair of bins
         /\ \E S \in {T \in SUBSET ((1..Len(F)) \X (1..dg[3])) : Cardinality(T) <= 2} : \E v \in [S -> Vals \ {0}] :
-             E = [i \in 1..Len(F) |-> [j \in 1..dg[3] |-> IF <<i, j>> \in S THEN v[<<i, j>>] ELSE 0]]
+             /\ E = [i \in 1..Len(F) |-> [j \in 1..dg[3] |-> IF <<i, j>> \in S THEN v[<<i, j>>] ELSE 0]]
+             \* narrowed datasets: every single bin and the first two, for the spectra with one non-zero bin lying in the selection
+             /\ keep \in {1..dg[3]} \cup (IF Cardinality(S) = 1 THEN {K \in {{j} : j \in 1..dg[3]} \cup {{1, 2}} : \A c \in S : c[2] \in K} ELSE {})
 Next == UNCHANGED vars
 Spec == Init /\ [][Next]_vars
 D == DirSeq(dg)
@@ -24,11 +28,11 @@ dd == dg[2]
 VariancePreserved == \A i \in 1..Len(F) : \A j \in 1..Len(D) :
    NativeBin(conv, E[i][j], F[i], DF2(F, i), dd) = ConvertedBin(conv, E[i][j], F[i], DF2(F, i), dd)
 Circle == IF conv \in {"ww3", "era5"} THEN 360 ELSE 5760
-BinKeepsPhysicalDir == \A j \in 1..Len(D) : ConvDir(conv, D[j]) % Circle = PhysicalFrom(conv, D[j]) /\ (conv # "wwm" => ConvDir(conv, D[j]) \in 0..(Circle - 1))
+BinKeepsPhysicalDir == \A j \in keep : ConvDir(conv, D[j]) % Circle = PhysicalFrom(conv, D[j]) /\ (conv # "wwm" => ConvDir(conv, D[j]) \in 0..(Circle - 1))
 DispatchTotalAndRight == /\ \A c \in {"wavespectra", "ww3", "ncswan", "wwm", "era5", "ndbc"} : Dispatch(NamesOf(c)) = c
                          /\ Dispatch(NamesOf("unknown")) = "reject"
 Q3(q) == <<q[1], q[2], q[3]>>
-EmitInv == EMIT => PrintT(ToJson([conv |-> conv, F |-> F, D |-> D, dd |-> dd, E |-> E,
+EmitInv == EMIT => PrintT(ToJson([conv |-> conv, F |-> F, D |-> D, dd |-> dd, E |-> E, keep |-> keep,
                                   factor |-> [i \in 1..Len(F) |-> Q3(Factor(conv, F[i]))],
                                   cdir |-> [j \in 1..Len(D) |-> ConvDir(conv, D[j])], dirunit |-> IF conv \in {"ww3", "era5"} THEN 1 ELSE 16]))
 =============================================================================
